@@ -63,7 +63,8 @@ func c02String(class string, seed int) string {
 	case "u2028":
 		return []string{"sep\u2028arator\u2029para" + tag, "nel\u0085here\u2028", "\u2028"}[seed%3]
 	case "quote":
-		return []string{`"quoted" \back\slash </script> ` + tag, `{"jsonrpc":"2.0","id":1,"result":{}}`, `\u0041 \n literal escapes \\ "`, "data: looks like sse\\n"}[seed%4]
+		return []string{`"quoted" \back\slash </script> ` + tag, `{"jsonrpc":"2.0","id":1,"result":{}}`, `\u0041 \n literal escapes \\ "`, "data: looks like sse\\n",
+			`literal \u003cb\u003e \u0026amp; next to real <b> & </b> ` + tag, `{"html":"\u003cdiv\u003e","s":"a\\u0026b"} <>&`}[seed%6]
 	case "control":
 		return []string{"ctl\x01\x02\x1f\x7fend" + tag, "tab\there\x0bvt\x0cff", "\x1b[31mred\x1b[0m", "nul\x00inside"}[seed%4]
 	case "astral":
@@ -280,7 +281,7 @@ func projErr(want string, err error) interface{} {
 	if len(t) > 200 {
 		t = t[:200]
 	}
-	return map[string]interface{}{"err": "other: " + t}
+	return map[string]interface{}{"err": map[string]interface{}{"other": t}}
 }
 
 // ---- descriptors ----
